@@ -43,17 +43,41 @@ theorem ScansF.toScans {m : M α} (h : ∀ p, ScansF E p 0 p m) : Scans E m := b
   intro s hs
   exact wp_mono (h s.pos s (Nat.le_refl _) (by omega)) (fun _ _ h' => h'.toAdv) (fun _ h' => h'.toAdv)
 
+syntax "wp_simp3" : tactic
+macro_rules
+  | `(tactic| wp_simp3) => `(tactic| simp only [andM, orM, andMM, rcIs, rcNe, getIs, nextIs, wp_bind, wp_pure, wp_ite,
+      wp_moveRightGetChar, wp_moveLeft, wp_textpos, wp_opts, wp_charsRight, wp_rest, wp_moveRight, wp_throw, wp_textto,
+      wp_rightChar, wp_charAt, wp_get, wp_modify, wp_fault, wp_setOpts, wp_isCaptureSlot, wp_captureSlotFromName,
+      wp_hasCapnames, wp_consumeAutocap, wp_emptyOptionsStack, wp_pushOptions, Bool.false_eq_true, if_false, if_true])
+
+/-- close an `Adv` / `AdvF` goal (or an arithmetic side goal) from the chain of facts in the context -/
+syntax "advf" : tactic
+macro_rules
+  | `(tactic| advf) => `(tactic| first
+      | omega
+      | (dsimp only at *; omega)
+      | (refine ⟨?_, ?_, ?_, ?_⟩ <;> first
+          | omega
+          | (dsimp only at *; omega)
+          | ((try dsimp only [PS.frame] at *); simp_all; done)
+          | (intro hN; (try dsimp only at *); simp_all; done))
+      | adv)
+
+/- from here on `wp` is opaque to unification: `apply And.intro` / `intro` must not run a scanner
+   symbolically by unfolding it -/
+attribute [local irreducible] wp
+
 /-- `wp_auto` with `split` before the closing tactic -/
 syntax "wp_go" : tactic
 macro_rules
   | `(tactic| wp_go) => `(tactic| repeat' (first
-      | apply And.intro
+      | with_reducible apply And.intro
       | intro _
       | wp_callee
-      | wp_simp2
+      | wp_simp3
       | dsimp only
       | split
-      | adv))
+      | advf))
 
 /-! ## `breakRecognize` -/
 
@@ -71,5 +95,65 @@ theorem scansF_bbCharCode (so : Bool) (o : Opts) (backpos : Nat) (hb : backpos <
   intro s _ hs
   unfold bbCharCode
   wp_go
+
+macro_rules | `(tactic| wp_callee) => `(tactic| refine wp_callF _ (scansF_bbCharCode _ _ _ _ (by adv)) (by adv) (by adv) ?_ ?_)
+macro_rules | `(tactic| wp_callee) => `(tactic| refine wp_callF _ (scansF_breakRecognize _ _) (by adv) (by adv) ?_ ?_)
+
+theorem scans_bbKOpen (o : Opts) : Scans E (bbKOpen E o) := by
+  intro s hs
+  unfold bbKOpen
+  wp_go
+
+macro_rules | `(tactic| wp_callee) => `(tactic| refine wp_call _ (scans_bbKOpen _ _) (by adv) ?_ ?_)
+
+theorem scans_bbHead (o : Opts) : ScansLt E (bbHead E o) := by
+  intro s hs
+  unfold bbHead
+  wp_go
+
+macro_rules | `(tactic| wp_callee) => `(tactic| refine wp_call_lt _ (scans_bbHead _ _) (by adv) ?_ ?_)
+
+theorem scansF_bbAngledNumber (so : Bool) (o : Opts) (backpos close : Nat) (hb : backpos < E.pat.length) :
+    ScansF E backpos 0 backpos (bbAngledNumber E so o backpos close) := by
+  intro s _ hs
+  unfold bbAngledNumber
+  wp_go
+
+theorem scansF_bbNumber (so : Bool) (o : Opts) (backpos : Nat) (hb : backpos < E.pat.length) :
+    ScansF E backpos 0 backpos (bbNumber E so o backpos) := by
+  intro s _ hs
+  unfold bbNumber
+  wp_go
+
+theorem scansF_bbName (so : Bool) (o : Opts) (backpos close : Nat) (k : Bool) (hb : backpos < E.pat.length) :
+    ScansF E backpos 0 backpos (bbName E so o backpos close k) := by
+  intro s _ hs
+  unfold bbName
+  wp_go
+
+macro_rules | `(tactic| wp_callee) => `(tactic| refine wp_callF _ (scansF_bbAngledNumber _ _ _ _ _ (by adv)) (by adv) (by adv) ?_ ?_)
+macro_rules | `(tactic| wp_callee) => `(tactic| refine wp_callF _ (scansF_bbNumber _ _ _ _ (by adv)) (by adv) (by adv) ?_ ?_)
+macro_rules | `(tactic| wp_callee) => `(tactic| refine wp_callF _ (scansF_bbName _ _ _ _ _ _ (by adv)) (by adv) (by adv) ?_ ?_)
+
+theorem scans_scanBasicBackslash (so : Bool) : Scans E (scanBasicBackslash E so) := by
+  intro s hs
+  unfold scanBasicBackslash
+  wp_go
+
+macro_rules | `(tactic| wp_callee) => `(tactic| refine wp_call _ (scans_scanBasicBackslash _ _) (by adv) ?_ ?_)
+
+theorem scans_bsProperty (o : Opts) (ch : Nat) : ScansLt E (bsProperty E o ch) := by
+  intro s hs
+  unfold bsProperty
+  wp_go
+
+macro_rules | `(tactic| wp_callee) => `(tactic| refine wp_call_lt _ (scans_bsProperty _ _ _) (by adv) ?_ ?_)
+
+theorem scans_scanBackslash (so : Bool) : Scans E (scanBackslash E so) := by
+  intro s hs
+  unfold scanBackslash
+  wp_go
+
+macro_rules | `(tactic| wp_callee) => `(tactic| refine wp_call _ (scans_scanBackslash _ _) (by adv) ?_ ?_)
 
 end RegexVerif.Parser
